@@ -3,7 +3,7 @@ from . import bgfi
 
 
 def run(ctx):
-    bgfi.run_property(ctx, "C02")
+    bgfi.run_property(ctx, "C02", oracles=bgfi.PROP_ORACLES.get("C02"))
 
 
 def replay(case):
